@@ -23,7 +23,8 @@ type Op struct {
 }
 
 type Case struct {
-	Init []int `json:"init"` // constructor values
+	Init []int `json:"init"`         // constructor values
+	Hi   int   `json:"hi,omitempty"` // values are drawn from 0..Hi (0 = the default small domain)
 	Ops  []Op  `json:"ops"`
 }
 
@@ -41,6 +42,10 @@ const domainHi = 8
 
 func check(c Case) (pbt.Info, error) {
 	var info pbt.Info
+	domainHi := domainHi
+	if c.Hi > 0 {
+		domainHi = c.Hi
+	}
 	names := []string{"HashSet", "TreeSet(natural)", "TreeSet(reversed)", "TreeSet(k>>1)", "LinkedHashSet"}
 	sets := []set{hashset.New(c.Init...), treeset.NewWith(dom.Cmp(dom.Nat), c.Init...), treeset.NewWith(dom.Cmp(dom.Rev), c.Init...),
 		treeset.NewWith(dom.Cmp(dom.Half), c.Init...), linkedhashset.New(c.Init...)}
@@ -204,6 +209,33 @@ func gen(t *rapid.T) Case {
 	return c
 }
 
+// genLarge: a 48-value domain and long histories, so that the tree-backed sets
+// reach depth-4 shapes and the rarely taken deletion cases of the red-black tree.
+func genLarge(t *rapid.T) Case {
+	c := Case{Hi: 47}
+	v := func(label string, maxN int) []int {
+		return rapid.SliceOfN(rapid.IntRange(0, c.Hi), 0, maxN).Draw(t, label)
+	}
+	c.Init = v("init", 20)
+	for chunk := 0; chunk < 4; chunk++ {
+		ops := rapid.SliceOfN(rapid.Custom(func(t *rapid.T) Op {
+			switch dom.Weighted(t, "op", 45, 45, 1, 9) {
+			case 0:
+				return Op{O: "add", Vs: v("vs", 4)}
+			case 1:
+				return Op{O: "remove", Vs: v("vs", 3)}
+			case 2:
+				return Op{O: "clear"}
+			default:
+				return Op{O: "contains", Vs: v("vs", 3)}
+			}
+		}), 0, 25).Draw(t, "ops")
+		c.Ops = append(c.Ops, ops...)
+	}
+	return c
+}
+
 func TestGenerated(t *testing.T) {
 	pbt.Run(t, pbt.Target[Case]{Name: "all-sets", Checks: 40000, Gen: gen, Check: check})
+	pbt.Run(t, pbt.Target[Case]{Name: "all-sets/large-domain", Checks: 6000, Gen: genLarge, Check: check})
 }
